@@ -9,7 +9,6 @@
 import copy
 import hashlib
 import json
-import os
 
 import driver
 from driver import Check, main
@@ -82,8 +81,9 @@ def run():
                      "require_actions": STEP_ACTIONS})
         jobs.append({"module": "MC_Cache", "cfg": two + "_live.cfg"})
         if c.thorough:
-            jobs.append({"module": "MC_Cache", "cfg": "MC_Cache3_thorough.cfg", "coverage": True,
-                         "require_actions": STEP_ACTIONS, "workers": NCPU, "heap": "16g"})
+            for big in ("MC_Cache3_thorough.cfg", "MC_Cache2x2_thorough.cfg"):     # exhaustive, no graph dump
+                jobs.append({"module": "MC_Cache", "cfg": big, "coverage": True, "require_actions": STEP_ACTIONS,
+                             "workers": NCPU, "heap": "16g"})
         for inst, num in (("MC_CacheSim_3", 120 if c.thorough else 12), ("MC_CacheSim_4", 60 if c.thorough else 6)):
             jobs.append({"module": "MC_CacheSim", "modules": ["MC_CacheSim", "MC_Cache"], "cfg": inst + ".cfg",
                          "simulate": "num=%d" % num, "depth": 150, "sim": inst})
@@ -91,11 +91,14 @@ def run():
         for j, r in zip(jobs, results):
             if "graph" in j:
                 g = cachelib.Graph(r.json_lines, generated=r.generated)
+                need = set(cachelib.GATE_ACTION) - ({"retry"} if j["cfg"].startswith("MC_Cache1_n0") else set())
+                if not need <= g.crash_points:         # vacuity guard: Crash taken at every step boundary
+                    raise MachineryError("%s: no Crash explored at %s" % (j["cfg"], sorted(need - g.crash_points)))
                 if j["graph"] == "2":
-                    limit = 20000 if c.thorough else 2500
+                    limit = 25000 if c.thorough else 4000
                     nwalk = 3000 if c.thorough else 300
                 else:
-                    limit = None if (c.thorough or j["graph"] != "1-n3") else 2500
+                    limit = None if (c.thorough or j["graph"] != "1-n3") else 5000
                     nwalk = 300 if c.thorough else 60
                 walks, covered = g.cover(rng if limit else None, limit)
                 cover_stats[j["cfg"][:-4]] = {"edges": g.nedges, "edges_covered": covered, "walks": len(walks)}
